@@ -22,6 +22,17 @@ func (x *Exec) isRT(fn *ssa.Function) bool {
 }
 
 func (x *Exec) newInput(kind string, s smt.Sort) *smt.Term {
+	if x.TapeIn != nil {
+		// concrete re-execution of a tape inside the engine (debugging aid)
+		e := x.TapeIn[x.tapePos]
+		x.tapePos++
+		switch s.K {
+		case smt.KBool:
+			return x.C.BoolC(e.V != 0)
+		default:
+			return x.C.BVC(s.W, e.V)
+		}
+	}
 	name := fmt.Sprintf("in%d_%s", len(x.inputs), kind)
 	if s.K == smt.KBV {
 		name = fmt.Sprintf("%s%d", name, s.W)
@@ -100,7 +111,13 @@ func init() {
 			if !n.IsConst() {
 				panic(x.unsupported("vChoose with symbolic bound"))
 			}
-			d := x.Choose(int(n.Int()))
+			var d int
+			if x.TapeIn != nil {
+				d = int(x.TapeIn[x.tapePos].V)
+				x.tapePos++
+			} else {
+				d = x.Choose(int(n.Int()))
+			}
 			x.inputs = append(x.inputs, Input{Kind: "choose", Val: uint64(d)})
 			return x.C.IntC(64, int64(d))
 		},
@@ -201,6 +218,10 @@ func init() {
 		// vBound(quick, thorough): a bound that depends on the tier.
 		"vBound": func(x *Exec, _ *ssa.Function, a []Value) Value {
 			v := a[x.Opt.Tier].(*smt.Term)
+			if x.TapeIn != nil {
+				v = x.C.IntC(64, int64(x.TapeIn[x.tapePos].V))
+				x.tapePos++
+			}
 			x.inputs = append(x.inputs, Input{Kind: "choose", Val: v.U})
 			return v
 		},
